@@ -68,8 +68,12 @@ def run(R):
                      "store unless they were re-encoded or the two stores provably share one dictionary")
     R.rule("C13-R2", "chunk workers are line-independent: the closure that parses one chunk of a line-oriented document carries no "
                      "state from one line to the next except its output, and handles no document-global directive")
+    R.rule("C13-R3", "document coverage: what the parallel workers of a chunked loader iterate over is a total partition of the "
+                     "document's lines - it reaches the worker from the document text only through element-preserving steps "
+                     "(lines, collect, chunks/par_chunks, iterators, copies); no hand-computed sub-range and no truncating adaptor")
     r1(R)
     r2(R)
+    r3(R)
 
 
 def shared_dictionary(b, fam, prog, root_a, root_b):
@@ -233,7 +237,8 @@ def r2(R):
             continue
         # a chunked parallel loader: calls chunks/par_chunks and par_iter().map(closure)
         names = {c.name() for c in b.calls()}
-        if ("chunks" in names or "par_chunks" in names) and ("map" in names):
+        if any(nm in names for nm in ("chunks", "par_chunks", "chunks_exact", "rchunks", "par_iter", "into_par_iter")) and ("map" in names) \
+                and any(c.name() == "map" and "rayon" in ((c.callee or "") + (c.pretty or "")) for c in b.calls()):
             loaders.append(b)
     R.floor("C13-R2", "chunked parallel loaders", len(loaders), 2)
     for b in sorted(loaders, key=lambda x: x.key):
@@ -313,3 +318,100 @@ def _returned_roots(w):
                     if p2 is not None:
                         work.append(p2["l"])
     return out
+
+
+# ---------------------------------------------------------------- R3 document coverage
+
+PRESERVING = {"lines", "par_lines", "collect", "deref", "deref_mut", "chunks", "par_chunks", "rchunks", "par_rchunks", "par_iter", "iter", "into_iter",
+              "into_par_iter", "par_bridge", "to_vec", "cloned", "copied", "as_slice", "as_str", "as_ref", "borrow", "to_owned",
+              "to_string", "clone", "enumerate", "from", "into", "collect_into_vec", "from_iter", "as_bytes", "split_inclusive"}
+# a `map` keeps one output per input whatever its closure does; what matters is that the closure does not itself pick a sub-range
+SUBRANGE = {"index", "index_mut", "get", "get_mut", "get_unchecked", "split_at", "split_off", "truncate", "drain", "take", "skip", "step_by",
+            "chunks_exact", "windows", "nth", "first", "last", "split_first", "split_last", "take_while", "skip_while"}
+
+
+def _pipeline_terminals(prog, b, op, seen, out, depth=0):
+    """walk backwards from an operand to everything it is computed from; element-preserving calls are followed through their
+    receiver, anything else is a terminal: ('doc', name) for a &str parameter, ('call', name, ln) / ('computed', ln) otherwise"""
+    pl = F.op_place(op)
+    if pl is None:
+        return
+    if any(e["k"] == "index" for e in pl["p"]):
+        out.append(("computed", "indexing", None))
+    l = pl["l"]
+    if (b.key, l) in seen or depth > 60:
+        return
+    seen.add((b.key, l))
+    for d in b.defs().get(l, []):
+        if d[0] == "arg":
+            ty = b.local_ty(l)
+            if ty.replace("&", "").replace("mut ", "").strip().startswith(("str", "alloc::string::String", "'")) or "str" == ty.strip("&"):
+                out.append(("doc", b.local_name(l), None))
+            elif b.is_closure and l == 1:
+                out.append(("capture", None, None))
+            else:
+                out.append(("param", b.local_name(l), None))
+        elif d[0] in ("assign", "partial"):
+            rv = d[3]
+            k = rv["rv"]
+            if k in ("use", "cast", "ref", "rawptr"):
+                for p2, kind in F.rv_places(rv):
+                    _pipeline_terminals(prog, b, {"k": "copy", "pl": p2}, seen, out, depth + 1)
+            elif k == "aggregate" and rv.get("ak") in ("tuple", "array") :
+                for o in rv["ops"]:
+                    _pipeline_terminals(prog, b, o, seen, out, depth + 1)
+            elif k == "aggregate" and rv.get("ak") == "adt" and not rv["ops"]:
+                pass
+            else:
+                ln = None
+                for blk in b.blocks:
+                    if blk["bb"] == d[1]:
+                        ln = blk["st"][d[2]].get("ln")
+                out.append(("computed", k + (":" + rv.get("adt", "").rsplit("::", 1)[-1] if k == "aggregate" else ""), ln))
+        elif d[0] in ("call", "partial_call"):
+            c = d[2]
+            nm = c.name()
+            if nm in PRESERVING and c.args:
+                _pipeline_terminals(prog, b, c.args[0], seen, out, depth + 1)
+            elif nm == "map" and len(c.args) == 2:
+                from c19 import closure_family_calls
+                key, inner = closure_family_calls(prog, b, c.args[1])
+                bad = sorted({ic.name() for x, ic in inner if ic.name() in SUBRANGE}) if key else ["<unresolved closure>"]
+                if bad:
+                    out.append(("call", "map(closure calling %s)" % ", ".join(map(str, bad)), c.ln))
+                _pipeline_terminals(prog, b, c.args[0], seen, out, depth + 1)
+            else:
+                out.append(("call", nm, c.ln))
+
+
+def r3(R):
+    prog = R.prog
+    n = 0
+    for b in sorted(prog.bodies.values(), key=lambda x: x.key):
+        if b.self_adt != SD or b.is_closure or not b.name.startswith("parse_") or is_test(b):
+            continue
+        names = {c.name() for c in b.calls()}
+        if "map" not in names:
+            continue
+        for c in b.calls():
+            if c.name() != "map" or len(c.args) != 2:
+                continue
+            if not (c.callee or "").startswith("rayon::") and "rayon" not in (c.pretty or ""):
+                continue
+            from c19 import closure_family_calls
+            key, inner = closure_family_calls(prog, b, c.args[1])
+            if not key or not any(x.key == key and x.loops() for x, ic in inner):
+                continue
+            n += 1
+            R.saw(b)
+            terms = []
+            _pipeline_terminals(prog, b, c.args[0], set(), terms)
+            docs = [t for t in terms if t[0] == "doc"]
+            other = [t for t in terms if t[0] != "doc"]
+            ok = bool(docs) and not other
+            R.ob("C13-R3", "coverage:" + b.name, "the slices handed to the parallel workers of %s come from the document text (%s) only through "
+                 "element-preserving steps" % (b.name, ", ".join(sorted({str(t[1]) for t in docs})) or "?"), ok, where=b.where(c.ln),
+                 detail=None if ok else "not a total partition by construction: also computed from %s - lines outside the hand-computed "
+                 "ranges (e.g. a division remainder) are never parsed"
+                 % "; ".join(sorted({"%s%s" % (t[1], (" (line %s)" % t[2]) if t[2] else "") for t in other})))
+    R.floor("C13-R3", "parallel worker pipelines", n, 2)
